@@ -92,8 +92,12 @@ def generate(rng, tier, idx):
     path = "/sim/d/images.json"
     variants = ["Server", "Client"]
     n = rng.randint(3, 14 if tier == "quick" else 30)
+    flips = rng.random() < 0.2
     for _ in range(n):
         r = rng.random()
+        if flips and rng.random() < 0.25:
+            # header.version assigned on the live manifest, back and forth, with adds in between and no dump
+            ops.append({"op": "im_set_version", "version": pick(rng, ["1.0", "1.2", "1.2", "1.1", "0.3"])})
         if r < 0.8:
             arch = pick(rng, pools.ARCHES[:3]) if rng.random() < 0.9 else pick(rng, pools.ARCHES_BAD)
             ops.append({"op": "img_add", "variant": pick(rng, variants), "arch": arch, "iid": rng.randrange(len(imgs))})
